@@ -396,6 +396,7 @@ func (r *Run) Finish(rule string, assumptions []string, floor int, exhaustive bo
 		}
 		fmt.Println("counters:" + sb.String())
 	}
+	RemoveScratch()
 	if len(r.violations) > 0 {
 		for i, v := range r.violations {
 			if i < r.maxViol {
@@ -468,7 +469,26 @@ func Scratch(label string) string {
 		fmt.Fprintln(os.Stderr, "scratch:", err)
 		os.Exit(2)
 	}
+	scratchMu.Lock()
+	scratchDirs = append(scratchDirs, d)
+	scratchMu.Unlock()
 	return d
+}
+
+var (
+	scratchMu   sync.Mutex
+	scratchDirs []string
+)
+
+// RemoveScratch removes every scratch directory this process made (Finish ends the process with os.Exit, which
+// skips deferred calls).
+func RemoveScratch() {
+	scratchMu.Lock()
+	defer scratchMu.Unlock()
+	for _, d := range scratchDirs {
+		os.RemoveAll(d)
+	}
+	scratchDirs = nil
 }
 
 // Char picks one byte of s.
